@@ -101,6 +101,19 @@ def hash_completeness(ctx, rule='A8'):
              if len([q for q in f_.params if q not in ('self', 'cls')]) == 1 and any(
                  isinstance(r_.value, ast.Call) and norm(r_.value.func) == 'hash' for r_ in returns_of(f_)
                  if r_.value is not None) and 'node' in f_.name]
+    def _hashes_own_parameter(f_):
+        # hash(<call on the single parameter>): `hash(node.str_context())`, `hash(str(node))`
+        q_ = [q for q in f_.params if q not in ('self', 'cls')][0]
+        for r_ in returns_of(f_):
+            v_ = r_.value
+            if isinstance(v_, ast.Call) and norm(v_.func) == 'hash' and len(v_.args) == 1 and \
+                    isinstance(v_.args[0], ast.Call):
+                c_ = v_.args[0]
+                if (isinstance(c_.func, ast.Attribute) and norm(c_.func.value) == q_) or \
+                        (len(c_.args) == 1 and norm(c_.args[0]) == q_):
+                    return True
+        return False
+    cands = sorted(cands, key=lambda f_: not _hashes_own_parameter(f_))
     nf = fp.nested.get('_node_fingerprint') or (cands[0] if cands else None)
     if nf is None:
         raise AnalysisError('DSG.fingerprint: node fingerprint helper not found')
@@ -116,8 +129,14 @@ def hash_completeness(ctx, rule='A8'):
     same = ctx.fn(f'{DSG}.is_same')
     rr = returns_of(same)
     fps = {'self.fingerprint()', f'{same.params[1]}.fingerprint()'}
-    cmp_rets = [r for r in rr if isinstance(r.value, ast.Compare) and len(r.value.ops) == 1 and
-                isinstance(r.value.ops[0], ast.Eq) and {norm(r.value.left), norm(r.value.comparators[0])} == fps]
+    def _needs_fps(e):
+        # the fingerprint comparison itself, or a conjunction one of whose operands is (`sizes_equal and fp == fp`)
+        e = expand_locals(same, e, 2)
+        if isinstance(e, ast.Compare) and len(e.ops) == 1 and isinstance(e.ops[0], ast.Eq) and \
+                {norm(e.left), norm(e.comparators[0])} == fps:
+            return True
+        return isinstance(e, ast.BoolOp) and isinstance(e.op, ast.And) and any(_needs_fps(v_) for v_ in e.values)
+    cmp_rets = [r for r in rr if r.value is not None and _needs_fps(r.value)]
     others = [r for r in rr if r not in cmp_rets]
     last = cmp_rets[0] if cmp_rets else (rr[-1] if rr else None)
     # every other way out answers "not the same" (cheap size tests)
